@@ -2,12 +2,13 @@
 from vlib import *
 import conc
 from props.gpcommon import gp_component
+from props import qsbr_parts
 
 LEVEL = "model_checking"
 ASSUMPTIONS = ["x86-TSO memory model; compiler barriers are honoured by the compiler (not modelled)",
                "a critical section 'has begun' once rcu_read_lock() returned and 'has ended' once the outermost rcu_read_unlock() was entered",
                "sys_membarrier modelled as one IPI per thread, each taking effect when that thread's store buffer is empty",
-               "bounds: <= 3 threads, <= 2 grace periods, nesting <= 2, store buffers <= 2 (TLC); RCU_QS_ACTIVE_ATTEMPTS = URCU_WAIT_ATTEMPTS = 2 in the driver build and the spec"]
+               "bounds: <= 3 threads, <= 2 grace periods, nesting <= 2, store buffers <= 2 (TLC); RCU_QS_ACTIVE_ATTEMPTS = URCU_WAIT_ATTEMPTS = 2 in the driver build and the spec"] + list(qsbr_parts.ASSUMPTIONS)
 
 
 def run(ctx):
@@ -15,12 +16,17 @@ def run(ctx):
     n, sim = (60, 20) if q else (1500, 300)
     mb = gp_component("mb", False); ms = gp_component("memb", True); mn = gp_component("memb", False)
     conc.run_component(ctx, mb, ["gp_1r1u", "gp_nest", "gp_2u_small"] + ([] if q else ["gp_2u"]), nseeds=n, nsim=sim)
-    conc.run_component(ctx, ms, ["gp_1r1u", "gp_2u_small"] + ([] if q else ["gp_nest", "gp_2u"]), nseeds=n, nsim=sim)
+    conc.run_component(ctx, ms, ["gp_1r1u"] + ([] if q else ["gp_2u_small", "gp_nest", "gp_2u"]), nseeds=n, nsim=sim)
     conc.run_component(ctx, mn, ["gp_1r1u"] + ([] if q else ["gp_nest", "gp_2u_small"]), nseeds=n, nsim=sim)
+    ctx.extra.setdefault("flavors_covered", []).extend(["mb", "memb+sys_membarrier", "memb without sys_membarrier"])
+    if len(ctx.violations) < conc.MAXV:
+        qsbr_parts.run_c01(ctx); ctx.extra["flavors_covered"].append("qsbr")
 
 
 def replay(ctx, path):
     import json, os
+    if qsbr_parts.is_mine(path):
+        return qsbr_parts.replay_c01(ctx, path)
     meta = json.load(open(os.path.join(path, "meta.json")))
     drv = meta.get("driver_name", "")
     comp = gp_component("memb", True) if "memb_sys" in drv else gp_component("memb", False) if "memb_nosys" in drv else gp_component("mb", False)
